@@ -58,4 +58,18 @@ CHECKS = {
         rule="case = (command, argument shape, pass mask, filter config); all distinct; states = distinct cases, transitions = calls; non-trivial = all (each is compared with the reference rewrite)",
         parts=[dict(pkg="./redis-shake/filter", harness=["filter"], test="^TestVerif_C13$", shards=1, budget=dict(quick=60, thorough=60))],
     ),
+    "C01": dict(
+        level="model_checking",
+        engine="seqx",
+        technique="bounded exhaustive enumeration of RDB item sequences (all words up to a length over an alphabet of every opcode/encoding) parsed by the real loader, compared record by record with an independent RDB writer's expectation",
+        text="Files are generated by an independent RDB writer (engine/rdbgen) from an alphabet holding every opcode, every length form, every string "
+             "storage form, every value type and compact encoding (all eleven ziplist entry encodings, intset widths, zipmap, quicklist, streams with "
+             "groups/PEL/consumers, module-aux sub-opcodes), all expiry/idle/freq prefixes. All words up to the stated lengths are parsed by the real "
+             "Loader through a whole-buffer and a one-byte-per-read source and compared record by record (db, key, type, expiry ms, idle, freq, payload == "
+             "type|file bytes|version|CRC64 computed by a bitwise reference), then EOF and footer. Pairs/triples expose state carried between records. "
+             "Hashes beyond 16 MiB are checked for the chunk records' concatenation.",
+        note="trusts rdbgen/rdbcat (written from rdb.h/rdb.c, self-checking LZF) and crcref; header versions 1-4 are driven without a checksum trailer; bounds on word length and on the alphabet are stated in the evidence",
+        rule="case = (word of alphabet items, header version, reader mode); states = distinct word prefixes (trie nodes) plus distinct dumped loader states (db, remainMember, lastReadCount, totMemberCount); transitions = parser runs; non-trivial = word contains at least one key or Lua record",
+        parts=[dict(pkg="./pkg/rdb", harness=["rdb"], test="^TestVerif_C01$", shards=16, budget=dict(quick=90, thorough=1500), mem_kb=8*1024*1024)],
+    ),
 }
